@@ -292,6 +292,20 @@ def r_sig_fold_all(prog, rep):
                         cond.append(a)
             r.check(not skips and not cond, site, "", "an element of %s can be left out of the signature (%s): two definitions that differ only in such an element "
                     "have the same signature" % (what[:40], "the loop skips or stops" if skips else "the fold is conditional"), f, (skips or cond or [lp])[0])
+        # an element reaches the hash on its own (combine is length-delimited per call): a loop over a member list that only accumulates the
+        # elements into something else (a joined string) and hashes that once is not injective — ["a b"] and ["a", "b"] join alike
+        fields_ = set(own_fields(prog, f.cls).keys()) if f.cls else set()
+        for lp, en, cont in E.whole_container_loops(f, "", full=True):
+            cname = cont.replace("this->", "").split(".")[0].split("->")[0]
+            if cname not in fields_:
+                continue
+            folds = [c for c in lp.child("body").walk() if c.get("k") == "call" and (c.get("fn") or "").endswith("CommandSignature::combine")]
+            if folds:
+                continue
+            acc = [c for c in lp.child("body").walk() if c.get("k") == "call" and ((c.get("op") or "") in ("+=", "<<") or (c.get("fn") or "").split("::")[-1] in ("append", "push_back", "insert"))]
+            if acc:
+                r.violation("%s::getSignature|fold %s" % (cls, cname), "the elements of %s are merged (%s) before they are hashed instead of being folded one by one: different lists "
+                            "can merge to the same text and get the same signature" % (cname, expr_str(acc[0])[:50]), f, acc[0])
         # the inherited part
         rec = prog.records.get(f.cls or "")
         bases = set()
@@ -509,4 +523,6 @@ VARIANTS = [
          new="  CommandSignature code;\n  if (!signatureData.empty()) {\n    code = CommandSignature(signatureData);\n  } else {\n    code = ExternalCommand::getSignature();", expect=("R-SIG-FOLD-ALL", "inherited-part")),
     dict(name="benign-inherited-part-on-both-arms", file="lib/BuildSystem/ShellCommand.cpp", old="  auto code = ExternalCommand::getSignature();\n  if (!signatureData.empty()) {\n    code = code.combine(signatureData);\n  } else {",
          new="  CommandSignature code;\n  if (!signatureData.empty()) {\n    code = ExternalCommand::getSignature().combine(signatureData);\n  } else {\n    code = ExternalCommand::getSignature();", expect=None),
+    dict(name="arguments-joined-before-hashing", file="lib/BuildSystem/ShellCommand.cpp", old="    for (const auto& arg: args) {\n      code = code.combine(arg);\n    }",
+         new="    SmallString<256> commandLine;\n    for (const auto& arg: args) {\n      commandLine += arg;\n      commandLine += ' ';\n    }\n    code = code.combine(commandLine.str());", expect=("R-SIG-FOLD-ALL", "fold args")),
 ]
